@@ -1,13 +1,13 @@
 package main
 
 import (
+	"golang.org/x/tools/go/ssa"
 	"sort"
 	"go/ast"
 	"fmt"
 	"os"
 	"strings"
 
-	"golang.org/x/tools/go/ssa"
 )
 
 func init() {
@@ -167,5 +167,19 @@ func init() {
 		}
 		c.ok("dbg", "x", "", "")
 		c.ok("dbg", "y", "", "")
+	})
+}
+
+func init() {
+	register("USUB", func(c *Ctx) {
+		pk := os.Getenv("DBG_PKGS")
+		c.usubRule("usub", func(fn *ssa.Function) bool {
+			for _, p := range strings.Split(pk, ",") {
+				if pkgRelOf(fn) == p {
+					return true
+				}
+			}
+			return false
+		}, nil)
 	})
 }
